@@ -375,10 +375,12 @@ reg('C04', 'model_checking',
     'real particles only, accelerations by the reference interpreter). In '
     'addition a grammar of generated integrators (1-5 stages x '
     'initialize/no initialize x 4 acceleration placement patterns incl. '
-    'update_nnps=False and second equation set x update_domain) x four '
+    'update_nnps=False and second equation set x update_domain) x '
     'stepper wirings (different classes, same class with different '
     'attributes, py_stage hooks incl. one that adds particles, arrays '
-    'without stepper) is run for three '
+    'without stepper; plus a mirror instead of a periodic domain with '
+    'fixed_h declared, and an integrator class re-defined under the same '
+    'module and class name in one process) is run for three '
     'steps starting at t=0.5 in a periodic domain with non-commutative '
     'trace steppers; particle state after every step and the post-stage '
     'callback log must agree bit for bit.',
